@@ -8,6 +8,8 @@ import WpModel.Model.Declarations
 import WpModel.Model.VarSubst
 import WpModel.Model.LengthC07
 import WpModel.Model.PendingC07
+import WpModel.Lemmas.C07Generic
+import WpModel.Lemmas.C07Var
 
 namespace Wp.C07
 open Wp Wp.Decl
@@ -300,145 +302,6 @@ example : expandFourSides (α := String) (β := String) "margin" false ["1px", "
 
 /-! ## 3. generic_expander -/
 
-private theorem checkItems_cons {α : Type} (expanded seen : List String) (n : String) (t : α)
-    (rest : List (String × α)) :
-    checkItems expanded seen ((n, t) :: rest) =
-      if n ∉ expanded then .error .assertion
-      else if n ∈ seen then .error .invalid
-      else checkItems expanded (n :: seen) rest := by
-  rw [checkItems]
-  by_cases he : n ∈ expanded <;> by_cases hs : n ∈ seen <;> simp [he, hs] <;> rfl
-
-private theorem checkItems_ok {α : Type} (expanded : List String) :
-    ∀ (items : List (String × α)) (seen : List String), checkItems expanded seen items = .ok () →
-      (∀ n ∈ items.map Prod.fst, n ∈ expanded) ∧ (items.map Prod.fst).Nodup ∧
-      ∀ n ∈ items.map Prod.fst, n ∉ seen
-  | [], _, _ => by simp
-  | (n, t) :: rest, seen, h => by
-    rw [checkItems_cons] at h
-    by_cases he : n ∈ expanded
-    · by_cases hs : n ∈ seen
-      · simp [he, hs] at h
-      · simp only [he, hs, not_true_eq_false, if_false] at h
-        have ih := checkItems_ok expanded rest (n :: seen) h
-        refine ⟨?_, ?_, ?_⟩
-        · intro m hm
-          simp only [List.map_cons, List.mem_cons] at hm
-          rcases hm with rfl | hm
-          · exact he
-          · exact ih.1 m hm
-        · simp only [List.map_cons, List.nodup_cons]
-          refine ⟨?_, ih.2.1⟩
-          intro hm
-          exact ih.2.2 n hm (by simp)
-        · intro m hm
-          simp only [List.map_cons, List.mem_cons] at hm
-          rcases hm with rfl | hm
-          · exact hs
-          · intro hms
-            exact ih.2.2 m hm (by simp [hms])
-    · simp [he] at h
-
-private theorem checkItems_of_nodup {α : Type} (expanded : List String) :
-    ∀ (items : List (String × α)) (seen : List String),
-      (∀ n ∈ items.map Prod.fst, n ∈ expanded) → (items.map Prod.fst).Nodup →
-      (∀ n ∈ items.map Prod.fst, n ∉ seen) → checkItems expanded seen items = .ok ()
-  | [], _, _, _, _ => rfl
-  | (n, t) :: rest, seen, h1, h2, h3 => by
-    rw [checkItems_cons]
-    have he : n ∈ expanded := h1 n (by simp)
-    have hs : n ∉ seen := h3 n (by simp)
-    simp only [he, hs, not_true_eq_false, if_false]
-    simp only [List.map_cons, List.nodup_cons] at h2
-    apply checkItems_of_nodup expanded rest (n :: seen)
-    · intro m hm; exact h1 m (by simp [hm])
-    · exact h2.2
-    · intro m hm hms
-      simp only [List.mem_cons] at hms
-      rcases hms with rfl | hms
-      · exact h2.1 hm
-      · exact h3 m (by simp [hm]) hms
-
-/-- When every yielded name is one of the declared names, the only way the collecting loop fails is
-`InvalidValues` ("got multiple … values"). -/
-private theorem checkItems_invalid {α : Type} (expanded : List String) :
-    ∀ (items : List (String × α)) (seen : List String), (∀ n ∈ items.map Prod.fst, n ∈ expanded) →
-      checkItems expanded seen items = .ok () ∨ checkItems expanded seen items = .error .invalid
-  | [], _, _ => Or.inl rfl
-  | (n, t) :: rest, seen, h1 => by
-    rw [checkItems_cons]
-    have he : n ∈ expanded := h1 n (by simp)
-    by_cases hs : n ∈ seen
-    · right; simp [he, hs]
-    · simp only [he, hs, not_true_eq_false, if_false]
-      exact checkItems_invalid expanded rest (n :: seen) (fun m hm => h1 m (by simp [hm]))
-
-private theorem fillOne_fst {α β : Type} (name : String) (items : List (String × α))
-    (validate : String → α → R β) (n : String) (r : String × OutV β)
-    (h : fillOne name items validate n = .ok r) : r.1 = actualName name n := by
-  unfold fillOne at h
-  split at h
-  · rename_i t hl
-    cases hv : validate (actualName name n) t with
-    | error f => rw [hv] at h; cases h
-    | ok b => rw [hv] at h; cases h; rfl
-  · cases h; rfl
-
-private theorem mapM_ok_cons {α β : Type} (f : α → R β) (a : α) (l : List α) (out : List β)
-    (h : (a :: l).mapM f = .ok out) : ∃ b bs, f a = .ok b ∧ l.mapM f = .ok bs ∧ out = b :: bs := by
-  rw [List.mapM_cons] at h
-  cases hf : f a with
-  | error e => simp [hf, bind, Except.bind] at h
-  | ok b =>
-    cases hl : l.mapM f with
-    | error e => simp [hf, hl, bind, Except.bind] at h
-    | ok bs =>
-      simp [hf, hl, bind, Except.bind, pure, Except.pure] at h
-      exact ⟨b, bs, rfl, rfl, h.symm⟩
-
-private theorem mapM_fill_names {α β : Type} (name : String) (items : List (String × α))
-    (validate : String → α → R β) :
-    ∀ (expanded : List String) (out : Longhands β),
-      expanded.mapM (fillOne name items validate) = .ok out →
-      out.map Prod.fst = expanded.map (actualName name)
-  | [], out, h => by
-    simp [List.mapM_nil, pure, Except.pure] at h; subst h; rfl
-  | n :: ns, out, h => by
-    obtain ⟨b, bs, hb, hbs, rfl⟩ := mapM_ok_cons _ n ns out h
-    simp [fillOne_fst name items validate n b hb, mapM_fill_names name items validate ns bs hbs]
-
-private theorem mapM_fill_mem {α β : Type} (name : String) (items : List (String × α))
-    (validate : String → α → R β) :
-    ∀ (expanded : List String) (out : Longhands β),
-      expanded.mapM (fillOne name items validate) = .ok out →
-      ∀ n ∈ expanded, ∃ r ∈ out, fillOne name items validate n = .ok r
-  | [], _, _ => by simp
-  | m :: ns, out, h => by
-    obtain ⟨b, bs, hb, hbs, rfl⟩ := mapM_ok_cons _ m ns out h
-    intro n hn
-    simp only [List.mem_cons] at hn
-    rcases hn with rfl | hn
-    · exact ⟨b, by simp, hb⟩
-    · obtain ⟨r, hr, hf⟩ := mapM_fill_mem name items validate ns bs hbs n hn
-      exact ⟨r, by simp [hr], hf⟩
-
-/-- What `.plain` evaluation amounts to once it succeeds. -/
-private theorem generic_plain_ok {α β : Type} (expanded : List String) (name : String) (raw : Raw α)
-    (validate : String → α → R β) (out : Longhands β)
-    (h : genericFill expanded name .plain raw validate = .ok out) :
-    checkItems expanded [] raw.items = .ok () ∧ raw.ends = none ∧
-      expanded.mapM (fillOne name raw.items validate) = .ok out := by
-  unfold genericFill at h
-  simp only at h
-  cases hc : checkItems expanded [] raw.items with
-  | error f => simp [hc, bind, Except.bind] at h
-  | ok u =>
-    cases he : raw.ends with
-    | some f => simp [hc, he, bind, Except.bind, throw, throwThe, MonadExceptOf.throw] at h
-    | none =>
-      simp [hc, he, bind, Except.bind] at h
-      exact ⟨rfl, rfl, h⟩
-
 /-- (a) **Exactly the declared longhands, once each, in the declared order** — whatever the tokens. -/
 theorem generic_names {α β : Type} (expanded : List String) (name : String) (head : Head) (raw : Raw α)
     (validate : String → α → R β) (out : Longhands β)
@@ -486,12 +349,8 @@ theorem generic_no_duplicate {α β : Type} (expanded : List String) (name : Str
 theorem generic_duplicate_invalid {α β : Type} (expanded : List String) (name : String) (raw : Raw α)
     (validate : String → α → R β) (hin : ∀ n ∈ raw.items.map Prod.fst, n ∈ expanded)
     (hdup : ¬ (raw.items.map Prod.fst).Nodup) :
-    genericFill expanded name .plain raw validate = .error .invalid := by
-  unfold genericFill
-  simp only
-  rcases checkItems_invalid expanded raw.items [] hin with hc | hc
-  · exact absurd (checkItems_ok expanded raw.items [] hc).2.1 hdup
-  · simp [hc, bind, Except.bind]
+    genericFill expanded name .plain raw validate = .error .invalid :=
+  genericFill_dup_invalid expanded name raw validate hin hdup
 
 /-- (d) `inherit` / `initial` alone fan out to every longhand; `var()` makes every longhand pending. -/
 theorem generic_keyword {α β : Type} (expanded : List String) (name : String) (raw : Raw α)
@@ -511,60 +370,6 @@ theorem generic_names_registered :
   decide +kernel
 
 /-! ## 4. border-side shorthands: components commute; border = four border-sides -/
-
-private theorem lookup_perm {α : Type} {l l' : List (String × α)} (hp : l.Perm l')
-    (hn : (l.map Prod.fst).Nodup) (n : String) : l.lookup n = l'.lookup n := by
-  induction hp with
-  | nil => rfl
-  | cons x _ ih =>
-    obtain ⟨a, b⟩ := x
-    simp only [List.map_cons, List.nodup_cons] at hn
-    simp only [List.lookup_cons, ih hn.2]
-  | swap x y l =>
-    obtain ⟨a, b⟩ := x
-    obtain ⟨c, d⟩ := y
-    simp only [List.map_cons, List.nodup_cons, List.mem_cons, not_or] at hn
-    simp only [List.lookup_cons]
-    by_cases h1 : n = c
-    · have e1 : (n == c) = true := by simp [h1]
-      have e2 : (n == a) = false := by
-        simp only [beq_eq_false_iff_ne, ne_eq]
-        intro e
-        exact hn.1.1 (h1.symm.trans e)
-      simp only [e1, e2]
-    · have e1 : (n == c) = false := by simp [h1]
-      simp only [e1]
-  | trans h1 _ ih1 ih2 =>
-    rw [ih1 hn, ih2 ((h1.map Prod.fst).nodup_iff.mp hn)]
-
-/-- The generic wrapper does not depend on the order in which the wrapped expander yields its items. -/
-private theorem genericFill_perm {α β : Type} (expanded : List String) (name : String) (raw raw' : Raw α)
-    (validate : String → α → R β) (he : raw.ends = none) (he' : raw'.ends = none)
-    (hp : raw.items.Perm raw'.items) (hin : ∀ n ∈ raw.items.map Prod.fst, n ∈ expanded) :
-    genericFill expanded name .plain raw validate = genericFill expanded name .plain raw' validate := by
-  have hpn := hp.map Prod.fst
-  have hin' : ∀ n ∈ raw'.items.map Prod.fst, n ∈ expanded := fun n hn => hin n (hpn.mem_iff.mpr hn)
-  by_cases hnd : (raw.items.map Prod.fst).Nodup
-  · have hnd' := hpn.nodup_iff.mp hnd
-    have hc := checkItems_of_nodup expanded raw.items [] hin hnd (by simp)
-    have hc' := checkItems_of_nodup expanded raw'.items [] hin' hnd' (by simp)
-    have hf : fillOne name raw.items validate = fillOne name raw'.items validate := by
-      funext n
-      simp only [fillOne, lookup_perm hp hnd n]
-    unfold genericFill
-    simp only [hc, hc', he, he', hf]
-  · rw [generic_duplicate_invalid expanded name raw validate hin hnd,
-      generic_duplicate_invalid expanded name raw' validate hin' (fun h => hnd (hpn.nodup_iff.mpr h))]
-
-private theorem genericFill_ends_invalid {α β : Type} (expanded : List String) (name : String) (raw : Raw α)
-    (validate : String → α → R β) (he : raw.ends = some .invalid)
-    (hin : ∀ n ∈ raw.items.map Prod.fst, n ∈ expanded) :
-    genericFill expanded name .plain raw validate = .error .invalid := by
-  unfold genericFill
-  simp only
-  rcases checkItems_invalid expanded raw.items [] hin with hc | hc
-  · simp [hc, he, bind, Except.bind, throw, throwThe, MonadExceptOf.throw]
-  · simp [hc, bind, Except.bind]
 
 theorem border_side_names_eq : borderSideNames = ["-width", "-color", "-style"] := by decide
 
@@ -1031,282 +836,6 @@ end Units
 
 section VarSubst
 open Wp.Var
-
-private theorem checkVar_leaf (t : Tk) (h : ∀ n l a, t ≠ .fn n l a) : checkVar t = false := by
-  cases t with
-  | fn n l a => exact absurd rfl (h n l a)
-  | _ => simp [checkVar]
-
-private theorem checkVarArgs_false : ∀ (xs : List Tk), (∀ x ∈ xs, checkVar x = false) → checkVarArgs xs = false
-  | [], _ => by simp [checkVarArgs]
-  | x :: rest, h => by
-    simp only [checkVarArgs, h x (by simp), Bool.false_or]
-    exact checkVarArgs_false rest (fun y hy => h y (by simp [hy]))
-
-/-- An argument list that parses to nothing is whitespace only. -/
-private theorem checkVarArgs_of_parse_nil : ∀ (a : List Tk) (b : Bool), parseArgs a b = some [] →
-    checkVarArgs a = false
-  | [], _, _ => by simp [checkVarArgs]
-  | .ws :: rest, b, h => by
-    simp only [parseArgs] at h
-    simp only [checkVarArgs, checkVar, Bool.false_or]
-    exact checkVarArgs_of_parse_nil rest b h
-  | .comma :: rest, b, h => by
-    simp only [parseArgs] at h
-    cases b with
-    | true => simp at h
-    | false =>
-      simp only [Bool.false_eq_true, if_false] at h
-      simp only [checkVarArgs, checkVar, Bool.false_or]
-      exact checkVarArgs_of_parse_nil rest true h
-  | .ident v :: rest, b, h => by
-    simp only [parseArgs, parses, if_true] at h
-    cases hr : parseArgs rest false <;> simp [hr] at h
-  | .leaf v :: rest, b, h => by
-    simp only [parseArgs, parses, if_true] at h
-    cases hr : parseArgs rest false <;> simp [hr] at h
-  | .fn n l a :: rest, b, h => by
-    simp only [parseArgs] at h
-    split at h
-    · cases hr : parseArgs rest false <;> simp [hr] at h
-    · cases h
-
-private theorem varHead_not_var (l : String) (args : List Tk) (hl : (l != "var") = true) :
-    varHead l args = none := by
-  have hl' : (l == "var") = false := by simpa [bne] using hl
-  simp [varHead, hl']
-
-/-- (CV) a non-`var` function none of whose arguments contains a detectable `var()` contains none. -/
-private theorem checkVar_fn_false (n l : String) (xs : List Tk) (hl : (l != "var") = true)
-    (h : ∀ x ∈ xs, checkVar x = false) : checkVar (.fn n l xs) = false := by
-  simp only [checkVar]
-  cases parseArgs xs false with
-  | none => rfl
-  | some args => simp only [varHead_not_var l args hl, checkVarArgs_false xs h]
-
-/-- (VP) a detectable `var()` has a parsed argument list starting with its `--name`. -/
-private theorem checkVar_var_args (n l : String) (args : List Tk) (hl : (l != "var") = false)
-    (h : checkVar (.fn n l args) = true) :
-    ∃ v dflt, parseArgs args false = some (.ident v :: dflt) := by
-  have hl' : (l == "var") = true := by simpa [bne] using hl
-  simp only [checkVar] at h
-  cases hp : parseArgs args false with
-  | none => simp [hp] at h
-  | some parsed =>
-    simp only [hp] at h
-    cases parsed with
-    | nil =>
-      -- `var()`: the test `name == 'var' and args` fails, and the loop finds nothing in whitespace
-      simp only [varHead, hl', List.isEmpty_nil, Bool.not_true, Bool.and_false, Bool.false_eq_true,
-        if_false] at h
-      rw [checkVarArgs_of_parse_nil args false hp] at h
-      cases h
-    | cons first dflt =>
-      cases first with
-      | ident v => exact ⟨v, dflt, rfl⟩
-      | _ => simp [varHead, hl'] at h
-
-private theorem resolveVar_zero (env : Env) (t : Tk) : resolveVar env 0 t = .error .recursion := rfl
-
-/-- (RN) `None` is only returned for a token without detectable `var()`. -/
-private theorem resolveVar_none (env : Env) (fuel : Nat) (t : Tk) (h : resolveVar env fuel t = .ok none) :
-    checkVar t = false := by
-  cases fuel with
-  | zero => cases h
-  | succ fuel =>
-    cases hc : checkVar t with
-    | false => rfl
-    | true =>
-      exfalso
-      cases t with
-      | fn name lname args =>
-        simp only [resolveVar, hc, Bool.not_true, Bool.false_eq_true, if_false] at h
-        by_cases hl : (lname != "var") = true
-        · simp only [hl, if_true] at h
-          cases hm : args.mapM (argStep (resolveVar env fuel)) with
-          | error e => rw [hm] at h; cases h
-          | ok parts =>
-            rw [hm] at h
-            simp only [bind, Except.bind] at h
-            split at h
-            · cases h
-            · rename_i x hx
-              cases x with
-              | none => cases h
-              | some r => simp only at h; split at h <;> cases h
-        · have hl' : (lname != "var") = false := by simpa using hl
-          obtain ⟨v, dflt, hp⟩ := checkVar_var_args name lname args hl' hc
-          simp only [hl', Bool.false_eq_true, if_false, hp] at h
-          generalize List.mapM (valueStep (resolveVar env fuel)) _ = m at h
-          cases m <;> cases h
-      | _ => simp [checkVar] at hc
-
-private theorem mapM_ok_cons' {α β : Type} (f : α → R β) (a : α) (l : List α) (out : List β)
-    (h : (a :: l).mapM f = .ok out) : ∃ b bs, f a = .ok b ∧ l.mapM f = .ok bs ∧ out = b :: bs := by
-  rw [List.mapM_cons] at h
-  cases hf : f a with
-  | error e => simp [hf, bind, Except.bind] at h
-  | ok b =>
-    cases hl : l.mapM f with
-    | error e => simp [hf, hl, bind, Except.bind] at h
-    | ok bs =>
-      simp [hf, hl, bind, Except.bind, pure, Except.pure] at h
-      exact ⟨b, bs, rfl, rfl, h.symm⟩
-
-private theorem mapM_ok_mem {α β : Type} (f : α → R β) :
-    ∀ (l : List α) (out : List β), l.mapM f = .ok out → ∀ p ∈ out, ∃ a ∈ l, f a = .ok p
-  | [], out, h => by simp [List.mapM_nil, pure, Except.pure] at h; subst h; simp
-  | a :: l, out, h => by
-    obtain ⟨b, bs, hb, hbs, rfl⟩ := mapM_ok_cons' f a l out h
-    intro p hp
-    simp only [List.mem_cons] at hp
-    rcases hp with rfl | hp
-    · exact ⟨a, by simp, hb⟩
-    · obtain ⟨x, hx, hfx⟩ := mapM_ok_mem f l bs hbs p hp
-      exact ⟨x, by simp [hx], hfx⟩
-
-/-- An `Except` loop that succeeds transfers to an `Option` loop that agrees with it pointwise. -/
-private theorem mapM_transfer {α β : Type} (f : α → R β) (g : α → Option β) :
-    ∀ (l : List α) (out : List β), l.mapM f = .ok out → (∀ a ∈ l, ∀ p, f a = .ok p → g a = some p) →
-      l.mapM g = some out
-  | [], out, h, _ => by simp [List.mapM_nil, pure, Except.pure] at h; subst h; rfl
-  | a :: l, out, h, hg => by
-    obtain ⟨b, bs, hb, hbs, rfl⟩ := mapM_ok_cons' f a l out h
-    rw [List.mapM_cons, hg a (by simp) b hb,
-      mapM_transfer f g l bs hbs (fun x hx p hp => hg x (by simp [hx]) p hp)]
-    rfl
-
-private theorem argStep_ok (rv : Tk → R (Option (List Tk))) (a : Tk) (p : List Tk) (h : argStep rv a = .ok p) :
-    rv a = .ok (some p) ∨ (rv a = .ok none ∧ p = [a]) ∨ ((∀ n l xs, a ≠ .fn n l xs) ∧ p = [a]) := by
-  cases a with
-  | fn n l xs =>
-    simp only [argStep, bind, Except.bind] at h
-    cases hr : rv (.fn n l xs) with
-    | error e => rw [hr] at h; cases h
-    | ok o =>
-      rw [hr] at h
-      cases o with
-      | none => cases h; exact Or.inr (Or.inl ⟨rfl, rfl⟩)
-      | some r => cases h; exact Or.inl rfl
-  | ws => right; right; cases h; exact ⟨(by intro n l xs e; cases e), rfl⟩
-  | comma => right; right; cases h; exact ⟨(by intro n l xs e; cases e), rfl⟩
-  | ident v => right; right; cases h; exact ⟨(by intro n l xs e; cases e), rfl⟩
-  | leaf v => right; right; cases h; exact ⟨(by intro n l xs e; cases e), rfl⟩
-
-private theorem valueStep_ok (rv : Tk → R (Option (List Tk))) (a : Tk) (p : List Tk) (h : valueStep rv a = .ok p) :
-    rv a = .ok (some p) ∨ (rv a = .ok none ∧ p = [a]) := by
-  simp only [valueStep, bind, Except.bind] at h
-  cases hr : rv a with
-  | error e => rw [hr] at h; cases h
-  | ok o =>
-    rw [hr] at h
-    cases o with
-    | none => cases h; exact Or.inr ⟨rfl, rfl⟩
-    | some r => cases h; exact Or.inl rfl
-
-/-- The three shapes of a successful call with fuel left. -/
-private theorem resolveVar_succ_cases (env : Env) (fuel : Nat) (t : Tk) (r : Option (List Tk))
-    (h : resolveVar env (fuel + 1) t = .ok r) :
-    (checkVar t = false ∧ r = none) ∨
-    (∃ name lname args parts o, t = .fn name lname args ∧ checkVar t = true ∧ (lname != "var") = true ∧
-      args.mapM (argStep (resolveVar env fuel)) = .ok parts ∧
-      resolveVar env fuel (.fn name lname parts.flatten) = .ok o ∧
-      r = some (match o with
-        | some r2 => if r2.isEmpty then [Tk.fn name lname parts.flatten] else r2
-        | none => [Tk.fn name lname parts.flatten])) ∨
-    (∃ name lname args v dflt parts, t = .fn name lname args ∧ checkVar t = true ∧ (lname != "var") = false ∧
-      parseArgs args false = some (.ident v :: dflt) ∧
-      (if (env (dashToUnderscore v)).isEmpty then dflt else env (dashToUnderscore v)).mapM
-        (valueStep (resolveVar env fuel)) = .ok parts ∧
-      r = some parts.flatten) := by
-  cases hc : checkVar t with
-  | false =>
-    left
-    simp only [resolveVar, hc, Bool.not_false, if_true] at h
-    cases h; exact ⟨rfl, rfl⟩
-  | true =>
-    right
-    cases t with
-    | fn name lname args =>
-      simp only [resolveVar, hc, Bool.not_true, Bool.false_eq_true, if_false] at h
-      by_cases hl : (lname != "var") = true
-      · left
-        simp only [hl, if_true] at h
-        cases hm : args.mapM (argStep (resolveVar env fuel)) with
-        | error e => rw [hm] at h; cases h
-        | ok parts =>
-          rw [hm] at h
-          simp only [bind, Except.bind] at h
-          cases h2 : resolveVar env fuel (.fn name lname parts.flatten) with
-          | error e => rw [h2] at h; cases h
-          | ok o =>
-            rw [h2] at h
-            refine ⟨name, lname, args, parts, o, rfl, rfl, hl, hm, h2, ?_⟩
-            cases o with
-            | none => cases h; rfl
-            | some r2 =>
-              simp only at h
-              split at h <;> (cases h; simp [*])
-      · right
-        have hl' : (lname != "var") = false := by simpa using hl
-        obtain ⟨v, dflt, hp⟩ := checkVar_var_args name lname args hl' hc
-        simp only [hl', Bool.false_eq_true, if_false, hp] at h
-        cases hm : (if (env (dashToUnderscore v)).isEmpty then dflt else env (dashToUnderscore v)).mapM
-            (valueStep (resolveVar env fuel)) with
-        | error e => rw [hm] at h; cases h
-        | ok parts =>
-          rw [hm] at h
-          cases h
-          exact ⟨name, lname, args, v, dflt, parts, rfl, rfl, hl', hp, hm, rfl⟩
-    | _ => simp [checkVar] at hc
-
-/-- (NV) what `resolve_var` returns contains no detectable `var()` any more. -/
-private theorem resolveVar_no_var (env : Env) :
-    ∀ (fuel : Nat) (t : Tk) (r : List Tk), resolveVar env fuel t = .ok (some r) → ∀ x ∈ r, checkVar x = false
-  | 0, _, _, h => by cases h
-  | fuel + 1, t, r, h => by
-    rcases resolveVar_succ_cases env fuel t _ h with ⟨_, hr⟩ | ⟨name, lname, args, parts, o, rfl, hc, hl, hm, h2, hr⟩ |
-        ⟨name, lname, args, v, dflt, parts, rfl, hc, hl, hp, hm, hr⟩
-    · cases hr
-    · have hparts : ∀ x ∈ parts.flatten, checkVar x = false := by
-        intro x hx
-        simp only [List.mem_flatten] at hx
-        obtain ⟨p, hp, hxp⟩ := hx
-        obtain ⟨a, _, hfa⟩ := mapM_ok_mem _ args parts hm p hp
-        rcases argStep_ok _ a p hfa with hra | ⟨hra, rfl⟩ | ⟨hleaf, rfl⟩
-        · exact resolveVar_no_var env fuel _ p hra x hxp
-        · simp only [List.mem_singleton] at hxp
-          subst hxp
-          exact resolveVar_none env fuel x hra
-        · simp only [List.mem_singleton] at hxp
-          subst hxp
-          exact checkVar_leaf x hleaf
-      have hc' := checkVar_fn_false name lname parts.flatten hl hparts
-      have ho : o = none := by
-        cases o with
-        | none => rfl
-        | some r2 =>
-          cases fuel with
-          | zero => cases h2
-          | succ f => simp [resolveVar, hc', pure, Except.pure] at h2
-      subst ho
-      simp only [Option.some.injEq] at hr
-      subst hr
-      intro x hx
-      simp only [List.mem_singleton] at hx
-      subst hx
-      exact hc'
-    · simp only [Option.some.injEq] at hr
-      subst hr
-      intro x hx
-      simp only [List.mem_flatten] at hx
-      obtain ⟨p, hp', hxp⟩ := hx
-      obtain ⟨a, _, hfa⟩ := mapM_ok_mem _ _ parts hm p hp'
-      rcases valueStep_ok _ a p hfa with hra | ⟨hra, rfl⟩
-      · exact resolveVar_no_var env fuel a p hra x hxp
-      · simp only [List.mem_singleton] at hxp
-        subst hxp
-        exact resolveVar_none env fuel x hra
 
 /-- **`var()` = substitution.**  Whenever the code's `resolve_var` returns (no `RecursionError`: see the
 witness `var_self_cycle`), what it returns is the substitution of the token: every detectable `var(--x, fb)` replaced by the
